@@ -52,4 +52,60 @@ theorem overwrite_replaces_nondir_partial (fs : FS) (src dst info : CPath) (nsrc
     r.2.fs.get dst = some nsrc ∧ r.2.fs.get src = none :=
   Proofs.C06.overwrite_replaces_nondir_partial fs src dst info nsrc ndst hs hd hsd hdd hdl hnm hdev hpar hne hnr hname hinfo hds hid
 
+/-- With --overwrite, an entry whose payload is not there (`lexists(files/<name>)` fails — e.g. the
+    reply named the same index twice and the first round already moved it) is NOT a licence to
+    remove what stands at the destination: when the destination's parent is a directory, the
+    restore fails (the `rename` of the missing payload: `ENOENT`, or what the oracle injects) and
+    the file system is exactly what it was — in particular the existing destination survives.
+    Under every fault oracle.  No further hypothesis is needed: `pLexists … = false` covers both a
+    payload string that does not resolve (then `restoreCore` stops at once) and one that resolves to
+    a free path (then `shutil.move` issues one `rename`, which fails, and finds nothing to copy). -/
+theorem overwrite_keeps_destination_when_payload_missing (φ : Oracle) (cwd : CPath) (e : Entry) (s : RunState)
+    (hpar : pIsdir s.fs cwd (dirname e.loc) = true)
+    (hpay : pLexists s.fs cwd (pathOfBackupCopy e.info) = false) :
+    let r := run φ (restoreOne cwd true e) s
+    (∃ er, r.1 = .error er) ∧ r.2.fs = s.fs :=
+  Proofs.C06.overwrite_keeps_destination_when_payload_missing φ cwd e s hpar hpay
+
+/-- Non-vacuity: `/d/f` exists, `/t/info/f.trashinfo` too, `/t/files/f` does not. -/
+example : pIsdir Proofs.C06.Ex.fsGone [] (dirname Proofs.C06.Ex.entF.loc) = true ∧
+    pLexists Proofs.C06.Ex.fsGone [] (pathOfBackupCopy Proofs.C06.Ex.entF.info) = false ∧
+    pLexists Proofs.C06.Ex.fsGone [] Proofs.C06.Ex.entF.loc = true := Proofs.C06.Ex.hyps_gone
+
+/-- … and the theorem at work there: the destination `/d/f` is still what it was. -/
+example :
+    let r := run noFaults (restoreOne [] true Proofs.C06.Ex.entF) { fs := Proofs.C06.Ex.fsGone }
+    (∃ er, r.1 = .error er) ∧ lstat r.2.fs [] (b "/d/f") = lstat Proofs.C06.Ex.fsGone [] (b "/d/f") := by
+  intro r
+  obtain ⟨h1, h2⟩ := overwrite_keeps_destination_when_payload_missing noFaults [] Proofs.C06.Ex.entF
+    { fs := Proofs.C06.Ex.fsGone } Proofs.C06.Ex.hyps_gone.1 Proofs.C06.Ex.hyps_gone.2.1
+  exact ⟨h1, by rw [h2]⟩
+
+/-- A dangling symbolic link on the way to the destination's parent blocks the restore before a
+    single call is issued: when the parent is not a directory and `os.makedirs` would run into the
+    link (`danglingOnPath`: `ENOENT` through it, `EEXIST` on it), `restoreOne` returns that error
+    and file system and trace are unchanged (payload and info file stay in the trash).  With
+    --overwrite as it stands; without it provided nothing is at the destination (else the entry is
+    refused with `EEXIST` first, `restore_refuses_existing`).  Under every fault oracle. -/
+theorem restore_blocked_by_dangling_parent (φ : Oracle) (cwd : CPath) (overwrite : Bool) (e : Entry) (s : RunState)
+    (er : Errno)
+    (hnd : pIsdir s.fs cwd (dirname e.loc) = false)
+    (hd : danglingOnPath s.fs cwd (dirname e.loc) = some er)
+    (hfree : overwrite = false → pLexists s.fs cwd e.loc = false) :
+    let r := run φ (restoreOne cwd overwrite e) s
+    r.1 = .error er ∧ r.2.fs = s.fs ∧ r.2.trace = s.trace :=
+  Proofs.C06.restore_blocked_by_dangling_parent φ cwd overwrite e s er hnd hd hfree
+
+/-- Non-vacuity: `/d -> /nowhere` (missing).  Restoring to `/d/f` meets the hypotheses with
+    `EEXIST`, restoring to `/d/sub/f` with `ENOENT`; nothing is at either destination, so both
+    `overwrite = false` and `overwrite = true` are covered. -/
+example :
+    (pIsdir Proofs.C06.Ex.fsLink [] (dirname Proofs.C06.Ex.entOn.loc) = false ∧
+     danglingOnPath Proofs.C06.Ex.fsLink [] (dirname Proofs.C06.Ex.entOn.loc) = some .EEXIST ∧
+     pLexists Proofs.C06.Ex.fsLink [] Proofs.C06.Ex.entOn.loc = false) ∧
+    (pIsdir Proofs.C06.Ex.fsLink [] (dirname Proofs.C06.Ex.entThrough.loc) = false ∧
+     danglingOnPath Proofs.C06.Ex.fsLink [] (dirname Proofs.C06.Ex.entThrough.loc) = some .ENOENT ∧
+     pLexists Proofs.C06.Ex.fsLink [] Proofs.C06.Ex.entThrough.loc = false) :=
+  ⟨Proofs.C06.Ex.hyps_on, Proofs.C06.Ex.hyps_through⟩
+
 end TrashVerif.C06
